@@ -1,0 +1,5 @@
+//go:build !verif
+
+package broadcaster
+
+func verifPoint(string, ...any) {}
